@@ -44,6 +44,9 @@ deep_n = { deep_s ~ b? }
 deep_s = _{ deep_na | a }
 deep_na = !{ a ~ b }
 untilc = @{ (!("c" | "*/") ~ ANY)* }
+polar = { (!b ~ ANY ~ a) | a ~ a }
+notsoi = { (!SOI ~ b)? ~ a+ }
+eoipred = { &SOI ~ a ~ (b | &EOI) }
 "# } }
 
 mod p {
@@ -83,6 +86,9 @@ deep_n = { deep_s ~ b? }
 deep_s = _{ deep_na | a }
 deep_na = !{ a ~ b }
 untilc = @{ (!("c" | "*/") ~ ANY)* }
+polar = { (!b ~ ANY ~ a) | a ~ a }
+notsoi = { (!SOI ~ b)? ~ a+ }
+eoipred = { &SOI ~ a ~ (b | &EOI) }
 "#]
     pub struct P;
 }
@@ -124,6 +130,9 @@ deep_n = { deep_s ~ b? }
 deep_s = _{ deep_na | a }
 deep_na = !{ a ~ b }
 untilc = @{ (!("c" | "*/") ~ ANY)* }
+polar = { (!b ~ ANY ~ a) | a ~ a }
+notsoi = { (!SOI ~ b)? ~ a+ }
+eoipred = { &SOI ~ a ~ (b | &EOI) }
 "#]
     pub struct T;
 }
@@ -155,7 +164,7 @@ fn skip_trailing(s: &str, mut p: usize) -> usize {
 fn rule_matches_at(name: &str, s: &str, loc: usize) -> Option<bool> {
     let pos = Position::new(s, loc)?;
     macro_rules! d { ($($r:ident),*) => { match name { $( stringify!($r) => Some(t::pairs::$r::try_check_partial(pos).is_ok()), )* "EOI" => Some(loc == s.len()), _ => None } } }
-    d!(builtin, stk2, pushskip, deep, deep_n, deep_na, a, b, seq, seq_atomic, seq_compound, seq_nonatomic, nest, nest2, rep, rep_n, choice, opt, pred, usesilent, stack, insens, nl, soi, anyrule, atomic_via_silent, compound_via_silent, insens2, untilc)
+    d!(builtin, stk2, pushskip, deep, deep_n, deep_na, a, b, seq, seq_atomic, seq_compound, seq_nonatomic, nest, nest2, rep, rep_n, choice, opt, pred, usesilent, stack, insens, nl, soi, anyrule, atomic_via_silent, compound_via_silent, insens2, untilc, polar, notsoi, eoipred)
 }
 /// C10 truthfulness: every rule listed as expected fails at the location, every rule listed as unexpected matches there
 fn truthful(msg: &str, s: &str, loc: usize) -> Result<(), String> {
@@ -295,9 +304,30 @@ macro_rules! check_sub {
             let full_copy = t::pairs::$name::try_parse(copy.as_str()).is_ok();
             let full_span = t::pairs::$name::try_parse(Span::new(s, a, b).unwrap()).is_ok();
             if full_copy != full_span { return Err(format!("{} detail=C08: full parse on Span {} vs copy {}", key(), full_span, full_copy)); }
+            // C03 on sub-inputs: the check entry points agree with the parse entry points (verdict, offset, error text)
+            {
+                let sp = Span::new(s, a, b).unwrap();
+                match (t::pairs::$name::try_parse_partial(sp), t::pairs::$name::try_check_partial(sp)) {
+                    (Ok((p1, _)), Ok(p2)) => if p1.byte_offset() != p2.byte_offset() { return Err(format!("{} detail=C03/C08: try_check_partial on Span stops at {} but try_parse_partial at {}", key(), p2.byte_offset(), p1.byte_offset())); },
+                    (Err(e1), Err(e2)) => if format!("{}", e1) != format!("{}", e2) { return Err(format!("{} detail=C03/C08: error reports of check and parse differ on Span", key())); },
+                    _ => return Err(format!("{} detail=C03/C08: try_check_partial and try_parse_partial disagree on Span", key())),
+                }
+                match (t::pairs::$name::try_parse(sp), t::pairs::$name::try_check(sp)) {
+                    (Ok(_), Ok(())) => {}
+                    (Err(e1), Err(e2)) => if format!("{}", e1) != format!("{}", e2) { return Err(format!("{} detail=C03/C08: error reports of full check and full parse differ on Span", key())); },
+                    _ => return Err(format!("{} detail=C03/C08: try_check and try_parse disagree on Span", key())),
+                }
+                let chk_copy = t::pairs::$name::try_check_partial(copy.as_str()).ok().map(|p| p.pos() + a);
+                let chk_span = t::pairs::$name::try_check_partial(sp).ok().map(|p| p.byte_offset());
+                if chk_copy != chk_span { return Err(format!("{} detail=C08: try_check_partial on Span {:?} vs fresh copy {:?}", key(), chk_span, chk_copy)); }
+            }
             if b == s.len() {
                 let on_pos = t::pairs::$name::try_parse_partial(Position::new(s, a).unwrap()).ok().map(|(p, n)| (p.byte_offset(), from_thin(&n.as_thin_token())));
                 if on_copy != on_pos { return Err(format!("{} detail=C08: Position sub-input {:?} vs fresh copy {:?}", key(), on_pos, on_copy)); }
+                let ps = Position::new(s, a).unwrap();
+                let chk_pos = t::pairs::$name::try_check_partial(ps).ok().map(|p| p.byte_offset());
+                if chk_pos != on_copy.as_ref().map(|x| x.0) { return Err(format!("{} detail=C03/C08: try_check_partial on Position {:?} vs fresh copy {:?}", key(), chk_pos, on_copy.as_ref().map(|x| x.0))); }
+                if t::pairs::$name::try_check(ps).is_ok() != full_copy || t::pairs::$name::try_parse(ps).is_ok() != full_copy { return Err(format!("{} detail=C03/C08: full parse/check on Position vs fresh copy {}", key(), full_copy)); }
             }
         } } }
     }};
@@ -345,9 +375,12 @@ fn all_rules(s: &str, cases: &mut u64) -> Result<(), String> {
     check_rule!(deep, true, s, cases);
     check_rule!(deep_n, false, s, cases);
     check_rule!(deep_na, false, s, cases);
+    check_rule!(polar, false, s, cases);
+    check_rule!(notsoi, false, s, cases);
+    check_rule!(eoipred, false, s, cases);
     check_tree!(a, s, cases); check_tree!(seq, s, cases); check_tree!(seq_nonatomic, s, cases); check_tree!(rep, s, cases); check_tree!(rep_n, s, cases);
     check_tree!(choice, s, cases); check_tree!(opt, s, cases); check_tree!(pred, s, cases); check_tree!(usesilent, s, cases); check_tree!(stack, s, cases);
-    check_tree!(insens, s, cases); check_tree!(nl, s, cases); check_tree!(soi, s, cases);
+    check_tree!(insens, s, cases); check_tree!(nl, s, cases); check_tree!(soi, s, cases); check_tree!(eoipred, s, cases);
     Ok(())
 }
 fn all_sub(s: &str, cases: &mut u64) -> Result<(), String> {
@@ -362,6 +395,10 @@ fn all_sub(s: &str, cases: &mut u64) -> Result<(), String> {
     check_sub!(insens2, s, cases);
     check_sub!(stk2, s, cases);
     check_sub!(deep, s, cases);
+    check_sub!(notsoi, s, cases);
+    check_sub!(eoipred, s, cases);
+    check_sub!(seq_atomic, s, cases);
+    check_sub!(compound_via_silent, s, cases);
     Ok(())
 }
 
@@ -377,7 +414,7 @@ fn nb_gen_vs_pest() {
             Err(_) => { println!("NB-RESULT name=nb_gen_vs_pest status=fail cases={} key=input={:?} detail=C09: panic", cases, s); return; }
         }
     }
-    println!("NB-RESULT name=nb_gen_vs_pest status=ok cases={} key=- detail=28 rules x all strings<={} chars over 3 alphabets: verdict/offset/tree vs pest, check==parse incl. error text, full parse, error location, traversal helpers", cases, l);
+    println!("NB-RESULT name=nb_gen_vs_pest status=ok cases={} key=- detail=31 rules x all strings<={} chars over 3 alphabets: verdict/offset/tree vs pest, check==parse incl. error text, full parse, error location, traversal helpers", cases, l);
 }
 #[test]
 fn nb_gen_subinput() {
@@ -391,7 +428,7 @@ fn nb_gen_subinput() {
             Err(_) => { println!("NB-RESULT name=nb_gen_subinput status=fail cases={} key=input={:?} detail=C09: panic", cases, s); return; }
         }
     }
-    println!("NB-RESULT name=nb_gen_subinput status=ok cases={} key=- detail=11 rules x all strings<={} chars over 2 alphabets x all sub-ranges: Span / Position sub-input vs fresh copy (partial and full, offsets and trees)", cases, l);
+    println!("NB-RESULT name=nb_gen_subinput status=ok cases={} key=- detail=15 rules x all strings<={} chars over 3 alphabets x all sub-ranges: Span / Position sub-input vs fresh copy (partial and full, parse and check, offsets and trees)", cases, l);
 }
 
 
